@@ -7,6 +7,8 @@
 //	types       per type with a GetValueType method: the constant it returns, the stream calls of
 //	            Write and the stream / table calls of Read, in source order
 //	writeValue  the calls of WriteValue, readValue the calls of ReadValue
+//	guards      availability guards (CheckCount: consumes nothing, rejects only counts the remaining
+//	            bytes cannot satisfy) are kept out of the skeletons and listed per method
 //
 // A shape it cannot transcribe is written as the string "?<what>", which no table of the model
 // contains, so the obligation fails instead of being skipped.
@@ -26,6 +28,10 @@ import (
 )
 
 func q(s string) string { return strconv.Quote(s) }
+
+// stream methods that read nothing: availability guards placed before an allocation or a loop
+var guardCalls = map[string]bool{"CheckCount": true}
+var guardsSeen = map[string][]string{}
 
 func strList(xs []string) string {
 	var qs []string
@@ -71,7 +77,13 @@ func streamCalls(fd *ast.FuncDecl) []string {
 			switch x := f.X.(type) {
 			case *ast.Ident:
 				if x.Name == param || (param != "" && x.Name == "val") || x.Name == "v" {
-					calls = append(calls, f.Sel.Name)
+					if guardCalls[f.Sel.Name] {
+						// a guard consumes nothing and only rejects input on which decoding fails anyway:
+						// it is not part of the layout skeleton, but it is reported (table `guards`)
+						guardsSeen[recvType(fd)+"."+fd.Name.Name] = append(guardsSeen[recvType(fd)+"."+fd.Name.Name], f.Sel.Name)
+					} else {
+						calls = append(calls, f.Sel.Name)
+					}
 				}
 			case *ast.SelectorExpr: // this.table.Put
 				if x.Sel.Name == "table" && f.Sel.Name == "Put" {
@@ -276,7 +288,21 @@ func main() {
 		fmt.Fprintf(&b, "(%s, %s, %s, %s)", q(t), q(ti.code), strList(ti.write), strList(ti.read))
 	}
 	b.WriteString("]\n\n")
-	fmt.Fprintf(&b, "def writeValue : List String := %s\ndef readValue : List String := %s\n\nend Gen.C02\n", strList(writeValue), strList(readValue))
+	fmt.Fprintf(&b, "def writeValue : List String := %s\ndef readValue : List String := %s\n\n", strList(writeValue), strList(readValue))
+	b.WriteString("/-- guard calls (no bytes consumed) left out of the skeletons above: (type, method, guards) -/\ndef guards : List (String × String × List String) :=\n  [")
+	var gk []string
+	for k := range guardsSeen {
+		gk = append(gk, k)
+	}
+	sort.Strings(gk)
+	for i, k := range gk {
+		if i > 0 {
+			b.WriteString(",\n   ")
+		}
+		parts := strings.SplitN(k, ".", 2)
+		fmt.Fprintf(&b, "(%s, %s, %s)", q(parts[0]), q(parts[1]), strList(guardsSeen[k]))
+	}
+	b.WriteString("]\n\nend Gen.C02\n")
 	if *out == "" {
 		fmt.Print(b.String())
 		return
